@@ -1,5 +1,6 @@
 import Knut.Properties.C04
 import Knut.FactsAgree.TransCheck
+import Knut.Generated.Facts
 /-!
 # C04 on the generated definitions
 
@@ -61,6 +62,11 @@ def dayGo (cur : String → Bool) (src : GoSem.Ref) (ord : check.Checker → Knu
   let g ← d.transactions.foldlM (fun g t => t.postings.foldlM (fun g p => stepPosting cur src g t p) g) g
   let g ← d.assertions.foldlM (fun g a => a.balances.foldlM (fun g b => stepBalance cur src g a b) g) g
   d.closings.foldlM (stepClose src ord) g
+
+/-- the order of the blocks of `Processor.Process`, as the fact extractor reads it from the current source: `dayGo` follows it (`Posting`
+and `Balance` nest inside the `Transaction` and `Assertion` blocks; the checker sets no `DayStart`, `Price`, `Transaction`, `Assertion`
+callback, and `DayEnd` only with `Write`).  A reordering of the blocks in `journal.go` breaks this example. -/
+example : Knut.Generated.processorCallbackOrder = ["DayStart", "Price", "Open", "Transaction", "Assertion", "Close", "DayEnd"] := rfl
 
 /-- the translated checker over a whole journal -/
 def runGo (cur : String → Bool) (src : GoSem.Ref) (ord : check.Checker → Knut.Close → List amounts.Key) (days : List Knut.Day) : GoRes :=
